@@ -567,6 +567,42 @@ def run_shard(shard):
                 v("unwrap.method_equivalence", f"{nm}: calling the composite differs from calling the unwrapped composite", it)
             rec.nontrivial.add(chash("composite", nm))
 
+
+    def check_wrapper_payload_modules():
+        """'Every wrapper node in any pytree (nested wrappers ...)': a wrapper whose payload is a *module that itself holds wrappers*
+        (a frozen sub-module, a Lambda over a module) - none held directly in the outer wrapper's own fields."""
+        loc, scale = jnp.asarray([0.3, -1.2, 2.0]), jnp.asarray([0.5, 2.0, 3.0])
+        aff = B.Affine(loc, scale)
+        trees = {
+            "Lambda(fn, Affine)": (W.Lambda(lambda b: b.scale * 2.0 + b.loc, aff), lambda out: (f64(out), f64(scale) * 2.0 + f64(loc))),
+            "NonTrainable(Affine)": (W.NonTrainable(aff), lambda out: (f64(out.scale), f64(scale))),
+            "(NonTrainable(Normal), 3)": ((W.NonTrainable(D.Normal(loc, scale)), 3), lambda out: (f64(out[0].scale), f64(scale))),
+            "Holder(Lambda(fn, Holder(BijectionReparam)))": (
+                Holder(W.Lambda(lambda h: h.a + 1.0, Holder(W.BijectionReparam(scale, B.SoftPlus()), None)), "x"),
+                lambda out: (f64(out.a), f64(scale) + 1.0)),
+            "NonTrainable(Holder(Lambda(fn, Affine)))": (
+                W.NonTrainable(Holder(W.Lambda(lambda b: b.scale, aff), jnp.arange(2))), lambda out: (f64(out.a), f64(scale))),
+            "Transformed(frozen Affine bijection)": (
+                eqx.tree_at(lambda d_: d_.bijection, D.Transformed(D.StandardNormal((3,)), aff), replace_fn=W.NonTrainable),
+                lambda out: (f64(out.bijection.scale), f64(scale))),
+        }
+        for nm, (tree, probe) in trees.items():
+            it = {"payload": nm, "origin": "payload"}
+            rec.evals += 1
+            rec.count("wrapper_payload_module_cases")
+            rec.nontrivial.add(chash("payload", nm))
+            try:
+                out = unwrap(tree)
+                got, want = probe(out)
+            except UnwrapContractBroken:
+                v("unwrap.contract", f"unwrap post-condition failed on {nm} ({counts.get('_witness')})", it)
+                continue
+            except Exception as e:  # noqa: BLE001
+                v(f"exception.{type(e).__name__}", f"unwrap of {nm} (or reading its value) raised {type(e).__name__}: {str(e)[:200]}", it)
+                continue
+            if got.shape != want.shape or not np.allclose(got, want, rtol=1e-12, atol=1e-12):
+                v("unwrap.value", f"unwrap of {nm} gives {got.ravel()[:4].tolist()}, applying every wrapper exactly once gives {want.ravel()[:4].tolist()}", it)
+
     def check_conditioner_exclusion():
         """(f) frozen leaves are not parameterised by coupling / autoregressive conditioners."""
         for tr_name, tr in {"Affine(loc frozen)": eqx.tree_at(lambda a: a.loc, B.Affine(0.7, 1.3), replace_fn=W.NonTrainable),
@@ -603,6 +639,8 @@ def run_shard(shard):
             check_nesting(o["nesting"])
         elif o.get("origin") == "training":
             check_training(o["index"])
+        elif o.get("origin") == "payload":
+            check_wrapper_payload_modules()
         else:
             check_dist_methods(); check_conditioner_exclusion()
     else:
@@ -619,6 +657,8 @@ def run_shard(shard):
             check_conditioner_exclusion()
         if shard["shard"] % 4 == 2:
             check_composites_keep_wrappers()
+        if shard["shard"] % 4 == 3:
+            check_wrapper_payload_modules()
         for i in range(3):
             check_merge_keeps_frozen(i)
         for i in range(shard["train"]):
